@@ -66,7 +66,9 @@ class CaseTimeout(Exception):
 
 
 class time_limit:
-    """per-case wall-clock limit for calls into the real code (a mutated function may not terminate)"""
+    """per-case limit for calls into the real code (a mutated function may not terminate).  The limit is on the CPU time the process itself uses
+    (ITIMER_PROF), not on wall-clock time: a machine busy with other work must not turn a correct run into "does not terminate".  A wall-clock alarm
+    of thirty times the limit stays as a backstop for a run that hangs without computing."""
     def __init__(self, seconds):
         self.seconds = seconds
 
@@ -75,11 +77,15 @@ class time_limit:
 
         def handler(signum, frame):
             raise CaseTimeout()
-        self.old = signal.signal(signal.SIGALRM, handler)
-        signal.alarm(self.seconds)
+        self.old_prof = signal.signal(signal.SIGPROF, handler)
+        self.old_alrm = signal.signal(signal.SIGALRM, handler)
+        signal.setitimer(signal.ITIMER_PROF, float(self.seconds))
+        signal.alarm(int(self.seconds) * 30)
 
     def __exit__(self, *exc):
         import signal
+        signal.setitimer(signal.ITIMER_PROF, 0)
         signal.alarm(0)
-        signal.signal(signal.SIGALRM, self.old)
+        signal.signal(signal.SIGPROF, self.old_prof)
+        signal.signal(signal.SIGALRM, self.old_alrm)
         return False
